@@ -13,17 +13,13 @@ import (
 	"sync/atomic"
 	"testing/synctest"
 	"time"
+
+	"github.com/internetarchive/Zeno/verifsim/scen"
 )
 
-// Event is one entry of the canonical event log.
+// Event is one entry of the canonical event log plus run-local data.
 type Event struct {
-	Step  int      `json:"s"`
-	T     int64    `json:"t"` // fake nanoseconds since run start
-	Actor string   `json:"a"`
-	Point string   `json:"p"`
-	Args  []string `json:"x,omitempty"`
-	Park  bool     `json:"k,omitempty"`
-
+	scen.Event
 	raw  []any
 	goid uint64
 	sub  int // arrival order within (quantum, goroutine)
@@ -32,16 +28,6 @@ type Event struct {
 type parkedG struct {
 	ev      *Event
 	release chan struct{}
-}
-
-// Violation is one oracle verdict.
-type Violation struct {
-	Property  string `json:"property"`
-	Oracle    string `json:"oracle"`
-	Signature string `json:"signature"`
-	Detail    string `json:"detail"`
-	Step      int    `json:"step"`
-	T         int64  `json:"t"`
 }
 
 // Oracle observes the canonical event stream and the quiescent states.
@@ -75,7 +61,7 @@ type Kernel struct {
 	nEvents   int
 	logFile   *os.File
 	keepLog   bool
-	Log       []*Event
+	Log       []*scen.Event
 	lastBusy  time.Duration
 	idleFn    func(ev *Event) bool
 	pairs     map[string]struct{}
@@ -132,7 +118,7 @@ func (k *Kernel) Handle(point string, park bool, args []any) {
 	goid := runtime.SimGoid()
 	k.mu.Lock()
 	actor := k.resolver(k, goid, point, args)
-	ev := &Event{Actor: actor, Point: point, Park: park, raw: args, goid: goid, sub: k.subOf[goid]}
+	ev := &Event{Event: scen.Event{Actor: actor, Point: point, Park: park}, raw: args, goid: goid, sub: k.subOf[goid]}
 	k.subOf[goid]++
 	k.pending = append(k.pending, ev)
 	var rel chan struct{}
@@ -201,7 +187,7 @@ func (k *Kernel) flush() {
 		if strings.HasPrefix(ev.Actor, "g?:") {
 			k.anon++
 		}
-		b, _ := json.Marshal(ev)
+		b, _ := json.Marshal(&ev.Event)
 		h := sha256.New()
 		h.Write(k.hash[:])
 		h.Write(b)
@@ -210,7 +196,7 @@ func (k *Kernel) flush() {
 		sb.Write(b)
 		sb.WriteByte('\n')
 		if k.keepLog {
-			k.Log = append(k.Log, ev)
+			k.Log = append(k.Log, &ev.Event)
 		}
 		pair := k.lastPoint + ">" + ev.Point
 		k.pairs[pair] = struct{}{}
@@ -357,7 +343,7 @@ func (k *Kernel) Run(hook func()) string {
 
 func (k *Kernel) logSched(kind, what string) {
 	k.mu.Lock()
-	k.pending = append(k.pending, &Event{Actor: "!sched", Point: kind, raw: []any{what}, sub: -1})
+	k.pending = append(k.pending, &Event{Event: scen.Event{Actor: "!sched", Point: kind}, raw: []any{what}, sub: -1})
 	k.mu.Unlock()
 }
 
@@ -383,9 +369,17 @@ func (k *Kernel) Drain() {
 	}
 }
 
-func (k *Kernel) Pairs() int   { return len(k.pairs) }
-func (k *Kernel) Events() int  { return k.nEvents }
-func (k *Kernel) Steps() int   { return k.step }
+func (k *Kernel) Pairs() int { return len(k.pairs) }
+func (k *Kernel) PairList() []string {
+	out := make([]string, 0, len(k.pairs))
+	for p := range k.pairs {
+		out = append(out, p)
+	}
+	sort.Strings(out)
+	return out
+}
+func (k *Kernel) Events() int    { return k.nEvents }
+func (k *Kernel) Steps() int     { return k.step }
 func (k *Kernel) AnonCount() int { return k.anon }
 
 func (k *Kernel) String() string {
